@@ -236,7 +236,9 @@ Boolean FloatRangeCheck(Double Wert, FloatType Typ) {
     /**   if (Typ == FloatDec) && (fabs(Wert) > 1e1000) WrError(ErrNum_BigDecFloat);**/
 }
 
-Boolean SingleBit(LargeInt Inp, LargeInt* Erg) {
+Boolean SingleBit(LargeInt Inp_O, LargeInt* Erg) {
+    LargeWord Inp = (LargeWord)Inp_O; /* bit 63 is a bit like the others: shift logically */
+
     *Erg = 0;
     do {
         if (!Odd(Inp)) {
